@@ -313,6 +313,15 @@ func builtinsChanged(tr *fp.Tracker) string {
 
 // judge runs the history and the probe in a *new* interpreter of this process and compares with the fresh process.
 func judge(c *Case) (sig, detail string, err error) {
+	sig, detail = interp.Guard(func() (string, string) {
+		var s, d string
+		s, d, err = judgeRaw(c)
+		return s, d
+	}, func() { vt.Discard("an evaluation of this case ran out of its budget (inconclusive)") })
+	return sig, detail, err
+}
+
+func judgeRaw(c *Case) (sig, detail string, err error) {
 	interp.Shared() // this process's interpreter is started (built-ins injected) before any fingerprint is taken
 	want, err := freshCached(c.Embedding, c.Probe)
 	if err != nil {
